@@ -100,9 +100,11 @@ def keys (o : Obj) : List String := o.map (·.1)
 
 /-! ### the checker -/
 
-/-- `validateParamChangesAreAllowed` -/
+/-- `validateParamChangesAreAllowed` (with the fix 0a0bfec58: every incoming attribute must exist in
+    the current value) -/
 def validate (current incoming : Obj) (allowList : List String) : Bool :=
   if current.length != incoming.length then false
+  else if !(keys incoming).all (hasKey current) then false
   else (keys current).all fun k => allowList.contains k || Json.beq (get current k) (get incoming k)
 
 structure Req where
@@ -116,19 +118,36 @@ def matchesReq (o : Obj) (r : Req) : Bool :=
   | some (.str s) => s == r.val
   | _ => false
 
-/-- body of the loop of `allowsMultiParamsChange` for one current record -/
-def multiOne (reqs : List Req) (incoming : List Obj) (current : Obj) : Bool :=
-  match reqs.find? (matchesReq current) with
-  | none => false
-  | some r =>
-    match incoming.find? (fun v => matchesReq v r) with
-    | none => false
-    | some inc => validate current inc r.allowed
+/-- `for i, v := range incomingRecords { if !matched[i] && v[req.Key] == req.Val {…break} }`:
+    the first incoming index that is not matched yet and satisfies the requirement -/
+def findFree (r : Req) (incoming : List Obj) (used : List Nat) : Option Nat :=
+  (List.range incoming.length).find? fun i =>
+    !used.contains i && (match incoming[i]? with
+      | some v => matchesReq v r
+      | none => false)
+
+/-- the loop of `allowsMultiParamsChange` (with the fix 060540892: `matched` = `used`), returning the
+    incoming index assigned to each current record; `none` = `return false` -/
+def assign (reqs : List Req) (incoming : List Obj) : List Nat → List Obj → Option (List Nat)
+  | _, [] => some []
+  | used, current :: rest =>
+    match reqs.find? (matchesReq current) with
+    | none => none
+    | some r =>
+      match findFree r incoming used with
+      | none => none
+      | some i =>
+        match incoming[i]? with
+        | none => none
+        | some inc =>
+          if validate current inc r.allowed then
+            (assign reqs incoming (i :: used) rest).map (i :: ·)
+          else none
 
 /-- `allowsMultiParamsChange` -/
 def allowsMulti (reqs : List Req) (current incoming : List Obj) : Bool :=
   if current.length != incoming.length then false
-  else current.all (multiOne reqs incoming)
+  else (assign reqs incoming [] current).isSome
 
 /-- `AllowedParamsChange` -/
 structure APC where
@@ -256,11 +275,5 @@ def recOf (cur : Obj) (k : String) : Json := get cur k
 
 /-- destination of an array element: amino makes a fresh slice, every element starts as the zero record -/
 def zeroRec : String → Json := fun _ => .null
-
-/-- index of the first incoming record matched by the first requirement matching `current` -/
-def matchIdx (reqs : List Req) (incoming : List Obj) (current : Obj) : Option Nat :=
-  match reqs.find? (matchesReq current) with
-  | none => none
-  | some r => incoming.findIdx? (fun v => matchesReq v r)
 
 end KV.Perm
